@@ -449,6 +449,15 @@ def check_uninitialised(ctx, rep, rule):
                                 for el in tl:
                                     if isinstance(el, ast.Subscript) and norm(el.value) == name:
                                         idx = el.slice.elts[0] if isinstance(el.slice, ast.Tuple) else el.slice
+                                        if isinstance(idx, ast.Name) and shape is not None and _short(it) == "enumerate" and it.args and isinstance(st.target, ast.Tuple) and isinstance(st.target.elts[0], ast.Name) and st.target.elts[0].id == idx.id:
+                                            # for i, x in enumerate(seq): buf[i] = ..  with len(seq) == len(buf)
+                                            sh0 = shape.elts[0] if isinstance(shape, ast.Tuple) else shape
+                                            seq = it.args[0]
+                                            if isinstance(seq, ast.Name):
+                                                ds = [n2 for n2 in ast.walk(f.node) if isinstance(n2, ast.Assign) and len(n2.targets) == 1 and isinstance(n2.targets[0], ast.Name) and n2.targets[0].id == seq.id]
+                                                if len(ds) == 1 and _short(ds[0].value) == "linspace" and len(ds[0].value.args) >= 3 and norm(ds[0].value.args[2]) == norm(sh0):
+                                                    # the length operand must not change between the two allocations
+                                                    full = True
                                         if isinstance(idx, ast.Name) and idx.id == lv and _short(it) == "range" and len(it.args) == 1 and shape is not None:
                                             sh0 = shape.elts[0] if isinstance(shape, ast.Tuple) else shape
                                             if norm(it.args[0]) == norm(sh0) or _getter_norm(f, it.args[0]) == _getter_norm(f, sh0):
